@@ -9,15 +9,25 @@ def check(run):
     from checks import _tree_theorems
     run.prove(_tree_theorems.C06)
     rng = run.rng
+    treegen.init_special(run.harness())      # empty-subtree roots as leaf values
     quick = run.tier == "quick"
     nseq = 100 if quick else 1000
     kinds = ["set", "set", "del", "app", "app", "range", "range"]
-    for backend in treegen.BACKENDS:
+    for backend in treegen.BACKENDS + treegen.GENERIC:
         seqs = []
         for k in range(nseq):
             depth = rng.choice([1, 2, 3, 3, 4, 4, 5] if quick else [1, 2, 3, 4, 5, 6, 7])
             nops = rng.randint(1, 14 if quick else 40)
             seqs.append(treegen.gen_seq(rng, backend, depth, nops, kinds, observe="obs"))
+        # directed: a leaf whose value is the root of an EMPTY subtree of some height (incl. the empty root of this very tree), written,
+        # observed, deleted, observed — values a "this subtree is empty anyway" shortcut would confuse with emptiness
+        if treegen.SPECIAL and backend in treegen.BACKENDS:
+            for depth in ([1, 3] if quick else [1, 2, 3, 4, 5]):
+                cap = 1 << depth
+                for hgt in sorted({1, depth, min(depth + 1, 20)}):
+                    i = rng.randrange(cap)
+                    seqs.append([f"tree new {backend} {depth}", f"set {hex(i)} {hex(treegen.SPECIAL[hgt - 1])}", "obs", f"del {hex(i)}", "obs",
+                                 f"range 0x0 {hex(treegen.SPECIAL[depth - 1])}", "obs", "del 0x0", "obs"])
         # deeper trees, partial observation
         for k in range(3 if quick else 20):
             depth = rng.choice([10, 16, 20])
